@@ -18,6 +18,9 @@ def handle : P String := do
   | "perm" => do
     let n ← nat; let k ← nat; let tr ← listOf nat
     pure s!"ok {showNats (pivLoop (traceOracle tr) n k).toList}"
+  | "tailshuffle" => do
+    let m ← nat; let pre ← listOf nat; let tail ← listOf nat
+    pure s!"ok {showNats (tailShuffle (fun _ => tail) m pre)}"
   | "replay" => do
     -- replay B costs cfg δ trace
     let B ← mat; let costs ← listOf rat; let cfg ← gqrCfg; let δ ← rat; let tr ← listOf nat
